@@ -93,13 +93,20 @@ func runSolver(sc SolverCfg, script string, ms int, dir, tag string, wall time.D
 	if solveCacheDir != "" {
 		ck = filepath.Join(solveCacheDir, cacheKey(sc, script, ms))
 		if b, err := os.ReadFile(ck); err == nil {
-			return string(b), 0, nil
+			// the last line records how long the solver took when the answer was computed
+			txt := string(b)
+			sec := 0.0
+			if i := strings.LastIndex(txt, "\n;sec="); i >= 0 {
+				fmt.Sscanf(txt[i+6:], "%f", &sec)
+				txt = txt[:i]
+			}
+			return txt, sec, nil
 		}
 	}
 	out, sec, err := runSolverRaw(sc, script, ms, dir, tag, wall)
 	if ck != "" && err == nil {
 		tmp := ck + fmt.Sprintf(".tmp%d", os.Getpid())
-		if os.WriteFile(tmp, []byte(out), 0o644) == nil {
+		if os.WriteFile(tmp, []byte(out+fmt.Sprintf("\n;sec=%.3f", sec)), 0o644) == nil {
 			os.Rename(tmp, ck)
 		}
 	}
